@@ -21,7 +21,15 @@ type c18Case struct {
 }
 
 func genC18(t *rapid.T) c18Case {
-	switch rapid.SampledFrom([]string{"c06", "c12", "c13", "c13"}).Draw(t, "kind") {
+	switch rapid.SampledFrom([]string{"c06", "c12", "c13", "c13", "resend"}).Draw(t, "kind") {
+	case "resend":
+		// the caller keeps one ActiveMessage value and sends it again after each (early) answer
+		c := c12Case{Terminals: []identity{genIdentity(t, 0, "id0")}, Plain: []int{rapid.IntRange(0, 2).Draw(t, "plain")}}
+		n := rapid.IntRange(2, 5).Draw(t, "resends")
+		for i := 0; i < n; i++ {
+			c.Calls = append(c.Calls, call{ID: i + 1, Terminal: 0, Cmd: 0x8104, Behaviour: "answer", TimeoutMs: rapid.SampledFrom([]int{150, 400}).Draw(t, "timeout")})
+		}
+		return c18Case{Kind: "resend", C12: &c}
 	case "c06":
 		c := genC06(t)
 		return c18Case{Kind: "c06", C06: &c}
@@ -47,6 +55,21 @@ func checkC18(c c18Case, _ *kit.Collector) kit.Result {
 		res.NT = len(c.C06.Terminals) >= 1
 	case "c12":
 		sc = c12Scenario(*c.C12)
+		res.NT = true
+	case "resend":
+		sc = c12Scenario(*c.C12)
+		for ai := range sc.Actors {
+			if sc.Actors[ai].Kind != "platform" {
+				continue
+			}
+			for si := range sc.Actors[ai].Steps {
+				if sc.Actors[ai].Steps[si].Op == "send" {
+					sc.Actors[ai].Steps[si].Async = false // one after the other: the previous call has returned
+					sc.Actors[ai].Steps[si].ReuseMsg = true
+					sc.Actors[ai].Steps[si].Body = []byte{0xc0, 0x1a, 0x01, 0x11, 0x22}
+				}
+			}
+		}
 		res.NT = true
 	default:
 		sc = c13Scenario(*c.C13)
